@@ -73,9 +73,14 @@ Definition ns : Z := G.ns.
 (* ------------------------------------------------------------------------------------------ *)
 (* deployment = Configuration as NewAuthenticatorMux reads it *)
 
+(* the provider types this model covers (AuthFlow also knows Cognito, whose Revoke goes through
+   the AWS SDK and is not modelled by SignOut.v): a deployment names only these *)
+Inductive akind := AGoogle | AOkta.
+Definition fkind (p : akind) : F.pkind := match p with AGoogle => F.Google | AOkta => F.Okta end.
+
 Record deployment := {
   d_host : str;                          (* server.host: the only Host the router serves *)
-  d_slugs : list (str * F.pkind);        (* provider slug -> provider type, registration order *)
+  d_slugs : list (str * akind);          (* provider slug -> provider type, registration order *)
   d_pre : bool;                          (* true: behind the logging handler of cmd/sso-auth *)
   d_proxy_domains : list str;            (* authorize.proxy.domains, as configured *)
   d_client_id : str; d_client_secret : str;   (* client "proxy" *)
@@ -173,12 +178,12 @@ Definition acookie_of (c : F.cookie) : S.acookie :=
   | _ => S.ACJunk
   end.
 
-Definition tprov (p : F.pkind) : T.provider := match p with F.Google => T.Google | F.Okta => T.Okta end.
-Definition sprov (p : F.pkind) : S.provider := match p with F.Google => S.PGoogle | F.Okta => S.POkta end.
+Definition tprov (p : akind) : T.provider := match p with AGoogle => T.Google | AOkta => T.Okta end.
+Definition sprov (p : akind) : S.provider := match p with AGoogle => S.PGoogle | AOkta => S.POkta end.
 
 (* provider.Redeem (IdToken, with the len(jwt) check that the code has today) as the reply the
    flow model consumes; a panic cannot happen with the check (C10_no_panic) *)
-Definition rd_of (p : F.pkind) (an : answers) (code : str) : F.redeem_reply :=
+Definition rd_of (p : akind) (an : answers) (code : str) : F.redeem_reply :=
   match T.redeem true (tprov p) (an_payload an) code (an_tok an) (an_ui an) with
   | T.Session s => F.RdTokens (T.s_email s) (T.s_access s) (T.s_refresh s) (T.s_expires_in s)
   | _ => F.RdErr
@@ -192,14 +197,14 @@ Definition perr_of (e : F.auth_err) : B.perr :=
   end.
 
 (* provider.RefreshAccessToken / ValidateSessionState as the back-channel handlers see them *)
-Definition benv (d : deployment) (p : F.pkind) (o : oracles) (an : answers) (now_s : Z) : B.env :=
+Definition benv (d : deployment) (p : akind) (o : oracles) (an : answers) (now_s : Z) : B.env :=
   {| B.e_now := now_s; B.e_open := o_open o;
-     B.e_refresh := match F.refresh_access_token p (an_refresh an) with
+     B.e_refresh := match F.refresh_access_token (fkind p) (an_refresh an) with
                     | inl e => B.RefErr (perr_of e)
                     | inr (tok, dur) => B.RefOk tok dur
                     end;
      B.e_groups := an_groups an;
-     B.e_valid := F.idp_validates p (an_validate an) |}.
+     B.e_valid := F.idp_validates (fkind p) (an_validate an) |}.
 
 (* "sig" as validSignature reads it: emptiness, base64.URLEncoding.DecodeString (concrete,
    SignOut.v), then the MAC oracle names the bytes *)
@@ -356,18 +361,18 @@ Definition of_flow_sign_in (r : B.request) (query_ok : bool) (uri : str) (ran : 
       end
   end.
 
-Definition h_sign_in (d : deployment) (slug : str) (p : F.pkind) (q : request) (o : oracles)
+Definition h_sign_in (d : deployment) (slug : str) (p : akind) (q : request) (o : oracles)
     (an : answers) (now_s : Z) : hfun := fun r fs =>
   let fm := B.form_of (fst (B.parse_form r fs)) in
   let uri := B.form_get k_redirect_uri fm in
   let ck := cookie_of d o (lookup slug (q_sess q)) in
   of_flow_sign_in r (o_query_ok o uri) uri (Some HSignIn)
-    (F.sign_in lower (fcfg d) p now_s (F.mkSI true true true true (B.form_get k_state fm)) ck
+    (F.sign_in lower (fcfg d) (fkind p) now_s (F.mkSI true true true true (B.form_get k_state fm)) ck
                (an_refresh an) (an_validate an)).
 
 (* SignOut + SignOutPage, authenticator.go:366-455 — the part of SignOut.auth_sign_out behind
    its gates (proved equal to it there in AuthAll_proofs.v); reads req.Form without parsing *)
-Definition h_sign_out (d : deployment) (slug : str) (p : F.pkind) (q : request) (o : oracles)
+Definition h_sign_out (d : deployment) (slug : str) (p : akind) (q : request) (o : oracles)
     (an : answers) : hfun := fun r fs =>
   let fm := B.form_of fs in
   let uri := B.form_get k_redirect_uri fm in
@@ -434,7 +439,7 @@ Definition of_flow_callback (r : B.request) (ran : option handler) (cr : F.cb_re
   | _, _ => err_with r (F.cr_status cr) [] co cs ran
   end.
 
-Definition h_callback (d : deployment) (slug : str) (p : F.pkind) (q : request) (an : answers)
+Definition h_callback (d : deployment) (slug : str) (p : akind) (q : request) (an : answers)
     (now_s : Z) : hfun := fun r fs =>
   let '(fs', e) := B.parse_form r fs in
   if e then err_with r 500 [] [] [] (Some HCallback)
@@ -486,7 +491,7 @@ Definition of_back_handler (r : B.request) (h : B.handler) (clears : bool) (rs :
   mk (B.rs_status rs) LNone (if clears then [F.OpClear] else []) [] (flat_map call_of_back (B.rs_calls rs))
      (back_body r h rs) (Some (HBack h)).
 
-Definition h_back (d : deployment) (p : F.pkind) (o : oracles) (an : answers) (now_s : Z) (h : B.handler) : hfun :=
+Definition h_back (d : deployment) (p : akind) (o : oracles) (an : answers) (now_s : Z) (h : B.handler) : hfun :=
   fun r fs =>
     let e := benv d p o an now_s in
     of_back_handler r h (match h with B.HRedeem => redeem_clears d e r fs | _ => false end)
@@ -526,7 +531,7 @@ Definition apply_gate (d : deployment) (o : oracles) (now_ns : Z) (g : gate) (f 
 Definition wrap (d : deployment) (o : oracles) (now_ns : Z) (gs : list gate) (h : hfun) : hfun :=
   fold_right (apply_gate d o now_ns) h gs.
 
-Definition run_handler (d : deployment) (slug : str) (p : F.pkind) (q : request) (o : oracles)
+Definition run_handler (d : deployment) (slug : str) (p : akind) (q : request) (o : oracles)
     (an : answers) (now_ns : Z) (h : handler) : hfun :=
   let now_s := (now_ns / ns)%Z in
   match h with
@@ -537,13 +542,13 @@ Definition run_handler (d : deployment) (slug : str) (p : F.pkind) (q : request)
   | HBack bh => h_back d p o an now_s bh
   end.
 
-Definition serve_route (d : deployment) (slug : str) (p : F.pkind) (q : request) (o : oracles)
+Definition serve_route (d : deployment) (slug : str) (p : akind) (q : request) (o : oracles)
     (an : answers) (now_ns : Z) (rt : route) : hfun :=
   with_methods (rt_methods rt) (wrap d o now_ns (rt_gates rt) (run_handler d slug p q o an now_ns (rt_handler rt))).
 
 (* one authenticator: setHeaders(serviceMux) on the stripped path. gorilla first answers 301
    when cleanPath differs (also for the empty path left by "/<slug>"), then matches the table. *)
-Definition serve_auth (d : deployment) (slug : str) (p : F.pkind) (q : request) (rest : str)
+Definition serve_auth (d : deployment) (slug : str) (p : akind) (q : request) (rest : str)
     (o : oracles) (an : answers) (now_ns : Z) : response :=
   let cp := ReqUri.clean_path rest in
   if negb (str_eqb cp rest) then mk 301 (LClean cp) [] [] [] BEmpty None
@@ -562,7 +567,7 @@ Fixpoint strip_prefix (p s : str) : option str :=
   | _ :: _, [] => None
   end.
 
-Fixpoint find_slug (path : str) (l : list (str * F.pkind)) : option (str * F.pkind * str) :=
+Fixpoint find_slug (path : str) (l : list (str * akind)) : option (str * akind * str) :=
   match l with
   | [] => None
   | (slug, k) :: l' =>
